@@ -5,6 +5,7 @@ import Storrent.Lemmas.SchedUnder
 import Storrent.Lemmas.SchedFifo
 import Storrent.Lemmas.SchedSat
 import Storrent.Lemmas.SchedHist
+import Storrent.Lemmas.SchedMeta
 /-
 C09 — Scheduler bookkeeping is conserved.
 
@@ -33,7 +34,7 @@ theorem C09_inflight_conserved (g : Geom) (hg : g.Valid) (tcap : Nat) (ops : Lis
     (hb : b < g.nchunks)
     (hpanic : (run (init g tcap) ops).panicked = false) (hsat : (run (init g tcap) ops).sat = false) :
     getN (run (init g tcap) ops).inFlight b = owed (run (init g tcap) ops) b := by
-  have hI := run_inv ops _ (init_inv g hg tcap)
+  have hI := run_inv ops _ (init_inv g hg tcap) (init_minv g tcap)
   have hgg : (run (init g tcap) ops).g = g := by rw [run_g]; rfl
   exact hI.2 hpanic hsat b (by rw [hgg]; exact hb)
 
@@ -69,7 +70,7 @@ theorem C09_quiescent_zero (g : Geom) (hg : g.Valid) (tcap : Nat) (ops : List Op
     (hclosed : ∀ w ∈ (run (init g tcap) ops).writers, w.isOpen = false) :
     getN (run (init g tcap) ops).inFlight b = 0 := by
   rw [C09_quiescent g hg tcap ops b hb hpanic hsat hq]
-  have hI := run_inv ops _ (init_inv g hg tcap)
+  have hI := run_inv ops _ (init_inv g hg tcap) (init_minv g tcap)
   have h1 : sumL (fun p => p.outstanding b) (run (init g tcap) ops).peers = 0 := by
     apply sumL_zero
     intro p hp
@@ -97,7 +98,7 @@ theorem C09_never_stuck (g : Geom) (hg : g.Valid) (tcap : Nat) (ops : List Op) (
 theorem C09_inflight_never_underflows (g : Geom) (hg : g.Valid) (tcap : Nat) (ops : List Op)
     (hpanic : (run (init g tcap) ops).panicked = false) (hsat : (run (init g tcap) ops).sat = false) :
     (run (init g tcap) ops).under = false := by
-  have hU := run_inv_uinv ops _ (init_inv g hg tcap) (by intro h; simp [init] at h)
+  have hU := run_inv_uinv ops _ (init_inv g hg tcap) (init_minv g tcap) (by intro h; simp [init] at h)
   cases hu : (run (init g tcap) ops).under with
   | false => rfl
   | true =>
@@ -115,8 +116,8 @@ theorem C09_inflight_never_underflows (g : Geom) (hg : g.Valid) (tcap : Nat) (op
     that step emits, and nothing else is covered: as multisets,
     `pending before (+ commanded) = pending after + covered by the emitted events`. -/
 theorem C09_every_command_answered (g : Geom) (hg : g.Valid) (p : Peer) (b : Nat) :
-    (∀ (e : PeerEv) (slow : Bool),
-        (handlePeerEv g p e slow).1.outstanding b + covL g b (handlePeerEv g p e slow).2.1
+    (∀ (k : Nat) (e : PeerEv) (slow : Bool), (∀ cs, e = .request cs → p.hasInfo = true) →
+        (handlePeerEv g k p e slow).1.outstanding b + covL g b (handlePeerEv g k p e slow).2.1
           = p.outstanding b + cnt b (reqChunks e)) ∧
     (∀ (pieces : List PieceSt) (i : Nat) (m : Msg) (slow : Bool),
         (∀ c, g.nchunks ≤ c → p.outstanding c = 0) →
@@ -126,7 +127,7 @@ theorem C09_every_command_answered (g : Geom) (hg : g.Valid) (p : Peer) (b : Nat
         (expireLoop g to fuel 0 p [] false).1.outstanding b + covL g b (expireLoop g to fuel 0 p [] false).2.1
           = p.outstanding b) ∧
     (∀ (i : Nat), covL g b (exitEvents g i p) = p.outstanding b) := by
-  refine ⟨fun e slow => handlePeerEv_loc hg b p e slow, fun pieces i m slow h => handleMsg_loc hg b pieces i p m slow h,
+  refine ⟨fun k e slow h => handlePeerEv_loc hg b k p e slow h, fun pieces i m slow h => handleMsg_loc hg b pieces i p m slow h,
     fun to fuel => ?_, fun i => exitEvents_cov hg b i p⟩
   have := expireLoop_loc hg b to fuel 0 p [] false
   simpa using this
@@ -135,10 +136,21 @@ theorem C09_every_command_answered (g : Geom) (hg : g.Valid) (p : Peer) (b : Nat
 theorem C09_requests_valid (g : Geom) (hg : g.Valid) (tcap : Nat) (ops : List Op) :
     ∀ p ∈ (run (init g tcap) ops).peers, ∀ c, g.nchunks ≤ c → p.outstanding c = 0 := by
   intro p hp c hc
-  have hI := run_inv ops _ (init_inv g hg tcap)
+  have hI := run_inv ops _ (init_inv g hg tcap) (init_minv g tcap)
   have hgg : (run (init g tcap) ops).g = g := by rw [run_g]; rfl
   have := hI.1.chunksOK p hp c (by rw [hgg]; exact hc)
   omega
+
+/-- the side condition of the first clause: in every reachable state (magnet torrents included) the
+    PeerRequest at the head of a live peer's command channel finds the metadata known there — the
+    torrent asks only after `writePeers(PeerMetadataComplete)` and the channel is FIFO -/
+theorem C09_request_after_metadata (g : Geom) (hg : g.Valid) (tcap : Nat) (s0 : State) (h0 : IsStart g tcap s0)
+    (ops : List Op) (p : Peer) (hp : p ∈ (run s0 ops).peers) (ha : p.alive = true)
+    (cs : List Nat) (rest : List PeerEv) (hq : p.evq = .request cs :: rest) : p.hasInfo = true := by
+  obtain ⟨hI, hM⟩ := start_inv hg h0
+  have := (run_inv' ops s0 hI hM).2.safe p hp ha
+  rw [hq] at this
+  exact safeQ_request _ cs rest this
 
 /-- a drop names exactly its block, for every chunk number -/
 theorem C09_drop_covers (g : Geom) (hg : g.Valid) (c : Nat) : cov g (dropEv g c) = [c] := cov_dropEv hg c
@@ -156,18 +168,22 @@ theorem C09_available_reported (g : Geom) (p : Peer) (i : Nat) (hp : BitsOK g p)
         bitW (handleMsg g pieces k p m slow).1 i + sumL (evMinus i) (handleMsg g pieces k p m slow).2.1
           = bitW p i + sumL (evPlus i) (handleMsg g pieces k p m slow).2.1 ∧
         BitsOK g (handleMsg g pieces k p m slow).1) ∧
-    (∀ (e : PeerEv) (slow : Bool),
-        (handlePeerEv g p e slow).1.bits = p.bits ∧
-        sumL (evPlus i) (handlePeerEv g p e slow).2.1 = 0 ∧ sumL (evMinus i) (handlePeerEv g p e slow).2.1 = 0) ∧
+    (∀ (k : Nat) (e : PeerEv) (slow : Bool),
+        -- commands of the torrent; PeerMetadataComplete fills and announces a seed's (empty) bitmap, once
+        (bitW (handlePeerEv g k p e slow).1 i + sumL (evMinus i) (handlePeerEv g k p e slow).2.1
+          = bitW p i + sumL (evPlus i) (handlePeerEv g k p e slow).2.1) ∧
+        (e ≠ .metadata → (handlePeerEv g k p e slow).1.bits = p.bits ∧
+          sumL (evPlus i) (handlePeerEv g k p e slow).2.1 = 0 ∧ sumL (evMinus i) (handlePeerEv g k p e slow).2.1 = 0)) ∧
     (∀ (to fuel : Nat),
         (expireLoop g to fuel 0 p [] false).1.bits = p.bits ∧
         sumL (evPlus i) (expireLoop g to fuel 0 p [] false).2.1 = 0 ∧
         sumL (evMinus i) (expireLoop g to fuel 0 p [] false).2.1 = 0) ∧
     (∀ (k : Nat), sumL (evMinus i) (exitEvents g k p) = bitW p i ∧ sumL (evPlus i) (exitEvents g k p) = 0) := by
-  refine ⟨fun pieces k m slow => handleMsg_av g pieces k p m slow i hp, fun e slow => ?_, fun to fuel => ?_,
+  refine ⟨fun pieces k m slow => handleMsg_av g pieces k p m slow i hp, fun k e slow => ?_, fun to fuel => ?_,
     fun k => exitEvents_av g k p i⟩
-  · obtain ⟨h1, h2⟩ := handlePeerEv_av (neutral_plus i) g p e slow
-    obtain ⟨_, h3⟩ := handlePeerEv_av (neutral_minus i) g p e slow
+  · refine ⟨(handlePeerEv_av g k p e slow i hp).1, fun hne => ?_⟩
+    obtain ⟨h1, h2⟩ := handlePeerEv_quiet (neutral_plus i) g k p e slow hne
+    obtain ⟨_, h3⟩ := handlePeerEv_quiet (neutral_minus i) g k p e slow hne
     exact ⟨h1.1, h2, h3⟩
   · obtain ⟨h1, h2⟩ := expireLoop_av (neutral_plus i) g to fuel 0 p [] false
     obtain ⟨_, h3⟩ := expireLoop_av (neutral_minus i) g to fuel 0 p [] false
@@ -287,7 +303,7 @@ theorem C09_history_answered (g : Geom) (hg : g.Valid) (tcap : Nat) (ops : List 
     histAccepted k b (init g tcap) ops
       = histAnswered k b (init g tcap) ops + histDrained k b (init g tcap) ops
         + pend k b (run (init g tcap) ops) := by
-  have h := run_pend k b ops _ (init_inv g hg tcap)
+  have h := run_pend k b ops _ (init_inv g hg tcap) (init_minv g tcap)
   have h0 : pend k b (init g tcap) = 0 := by simp [pend, pendL, init]
   omega
 
@@ -298,11 +314,111 @@ theorem C09_history_settled (g : Geom) (hg : g.Valid) (tcap : Nat) (ops : List O
     histAccepted k b (init g tcap) ops
       = histAnswered k b (init g tcap) ops + histDrained k b (init g tcap) ops := by
   have h := C09_history_answered g hg tcap ops k b
-  have hI := run_inv ops _ (init_inv g hg tcap)
+  have hI := run_inv ops _ (init_inv g hg tcap) (init_minv g tcap)
   obtain ⟨a1, a2⟩ := hI.1.deadOK p (mem_of_get _ _ _ hp) hdead
   have : pend k b (run (init g tcap) ops) = 0 := by
     unfold pend; rw [pendL_of_get k b _ p hp]
     simp [outstanding_def, a1, a2, hq]
+  omega
+
+/-! ### across the metadata transition (magnet torrents)
+
+`IsStart g tcap s0`: `s0` is `init g tcap` (metadata known from the start) or `initMagnet g tcap` (only the
+info-hash is known; peers connect, send Have / Bitfield / HaveAll / HaveNone / DontHave in any
+combination, and the step `metaComplete` — `gotMetadata` succeeding, `writePeers(PeerMetadataComplete)` —
+happens at an arbitrary moment; every peer then handles its PeerMetadataComplete at its own pace). -/
+
+theorem start_all {g : Geom} (hg : g.Valid) {tcap : Nat} {s0 : State} (h0 : IsStart g tcap s0) :
+    Inv s0 ∧ MInv s0 ∧ AInv s0 ∧ FInv s0 ∧ KInv s0 ∧ UInv s0 ∧ s0.g = g ∧ (∀ k b, pend k b s0 = 0) := by
+  rcases h0 with rfl | rfl
+  · exact ⟨init_inv g hg tcap, init_minv g tcap, init_ainv g tcap, init_finv g tcap, init_kinv g tcap,
+      (by intro h; simp [init] at h), rfl, fun k b => by simp [pend, pendL, init]⟩
+  · have hA : AInv (initMagnet g tcap) :=
+      ainv_frame (init g tcap) _ (init_ainv g tcap) rfl rfl (fun _ => ⟨rfl, rfl⟩) rfl rfl id
+    have hF : FInv (initMagnet g tcap) :=
+      finv_frameT (init g tcap) _ (init_finv g tcap) rfl (TSame.refl _) rfl rfl id
+    have hK : KInv (initMagnet g tcap) :=
+      kinv_of (init g tcap) _ (init_kinv g tcap) rfl (fun _ => Nat.le_refl _) rfl rfl
+    exact ⟨initMagnet_inv g hg tcap, initMagnet_minv g tcap, hA, hF, hK,
+      (by intro h; simp [initMagnet, init] at h), rfl, fun k b => by simp [pend, pendL, initMagnet, init]⟩
+
+theorem run_all {g : Geom} (hg : g.Valid) {tcap : Nat} {s0 : State} (h0 : IsStart g tcap s0) (ops : List Op) :
+    Inv (run s0 ops) ∧ AInv (run s0 ops) ∧ FInv (run s0 ops) ∧ UInv (run s0 ops) ∧ (run s0 ops).g = g := by
+  obtain ⟨hI, hM, hA, hF, _, hU, hgg, _⟩ := start_all hg h0
+  exact ⟨run_inv ops s0 hI hM, run_ainv ops s0 hA, run_finv ops s0 hF hA, run_inv_uinv ops s0 hI hM hU,
+    by rw [run_g]; exact hgg⟩
+
+/-- `C09_inflight_conserved` and `C09_inflight_never_underflows` from either start state -/
+theorem C09_inflight_conserved_start (g : Geom) (hg : g.Valid) (tcap : Nat) (s0 : State) (h0 : IsStart g tcap s0)
+    (ops : List Op) (hpanic : (run s0 ops).panicked = false) (hsat : (run s0 ops).sat = false) :
+    (run s0 ops).under = false ∧ ∀ b, b < g.nchunks → getN (run s0 ops).inFlight b = owed (run s0 ops) b := by
+  obtain ⟨hI, _, _, hU, hgg⟩ := run_all hg h0 ops
+  refine ⟨?_, fun b hb => hI.2 hpanic hsat b (by rw [hgg]; exact hb)⟩
+  cases hu : (run s0 ops).under with
+  | false => rfl
+  | true =>
+    rcases hU hu with h | h
+    · rw [hpanic] at h; cases h
+    · rw [hsat] at h; cases h
+
+/-- The availability clause of C09 across the metadata transition: for every history from either
+    start state — peers advertising before the metadata is known (Have, also beyond the torrent;
+    Bitfield; HaveAll; HaveNone; DontHave; repeated, changing, contradictory), the metadata
+    completing at any moment, more advertisements, disconnects at any moment — the underflow branch
+    of `noteAvailable` is never taken and `available[i]` + announcements in transit = number of
+    connected peers whose bitmap has `i` + retractions in transit, for EVERY index `i` (also those
+    that turn out to lie beyond the torrent). -/
+theorem C09_available_conserved_start (g : Geom) (hg : g.Valid) (tcap : Nat) (s0 : State) (h0 : IsStart g tcap s0)
+    (ops : List Op) (hsat : (run s0 ops).sat = false) (i : Nat) :
+    (run s0 ops).aunder = false ∧
+    getN (run s0 ops).avail i + plusT (run s0 ops) i = advertised (run s0 ops) i + minusT (run s0 ops) i := by
+  obtain ⟨_, hA, hF, _, _⟩ := run_all hg h0 ops
+  have hu := (hF.val hsat).1
+  refine ⟨hu, ?_⟩
+  rw [advertised_eq _ hA.1, plusT_eq, minusT_eq]
+  exact hA.2 hu hsat i
+
+/-- … at quiescence: the number of connected peers currently advertising `i`; zero when nobody is connected -/
+theorem C09_available_quiescent_start (g : Geom) (hg : g.Valid) (tcap : Nat) (s0 : State) (h0 : IsStart g tcap s0)
+    (ops : List Op) (hsat : (run s0 ops).sat = false) (hq : quiescent (run s0 ops)) (i : Nat) :
+    getN (run s0 ops).avail i = advertised (run s0 ops) i ∧
+    ((∀ p ∈ (run s0 ops).peers, p.alive = false) → getN (run s0 ops).avail i = 0) := by
+  have h := (C09_available_conserved_start g hg tcap s0 h0 ops hsat i).2
+  obtain ⟨h1, h2⟩ := hq
+  have z : ∀ (f : TorEv → Nat), transit f (run s0 ops) = 0 := by
+    intro f
+    unfold transit
+    rw [h1]
+    have : sumL (fun p => sumL f p.overflow) (run s0 ops).peers = 0 := by
+      apply sumL_zero
+      intro p hp
+      rw [(h2 p hp).2]; rfl
+    rw [this]; rfl
+  rw [plusT_eq, minusT_eq, z, z] at h
+  refine ⟨by omega, fun hgone => ?_⟩
+  have : advertised (run s0 ops) i = 0 := by
+    unfold advertised
+    apply sumL_zero
+    intro p hp
+    simp [hgone p hp]
+  omega
+
+/-- `C09_no_saturation` from either start state -/
+theorem C09_no_saturation_start (g : Geom) (hg : g.Valid) (tcap : Nat) (s0 : State) (h0 : IsStart g tcap s0)
+    (ops : List Op) (hG : Guarded s0 ops) :
+    (run s0 ops).sat = false ∧ (∀ b, getN (run s0 ops).inFlight b ≤ 3 + resv (run s0 ops) b) ∧
+    (run s0 ops).peers.length ≤ 50 := by
+  obtain ⟨_, _, hA, hF, hK, _, _, _⟩ := start_all hg h0
+  have := run_kinv ops s0 hK hF hA hG
+  exact ⟨this.nosat, this.bound, this.npeers⟩
+
+/-- `C09_history_answered` from either start state -/
+theorem C09_history_answered_start (g : Geom) (hg : g.Valid) (tcap : Nat) (s0 : State) (h0 : IsStart g tcap s0)
+    (ops : List Op) (k b : Nat) :
+    histAccepted k b s0 ops = histAnswered k b s0 ops + histDrained k b s0 ops + pend k b (run s0 ops) := by
+  obtain ⟨hI, hM, _, _, _, _, _, hz⟩ := start_all hg h0
+  have h := run_pend k b ops s0 hI hM
+  have := hz k b
   omega
 
 /-! ### chunk arithmetic (`uint32`, as written) -/
@@ -424,6 +540,13 @@ example : (run (init { ps := 32768, len := 50000 } 8) demoOps).inFlight = [0, 0,
   decide
 
 example : (run (init { ps := 32768, len := 50000 } 8) (demoOps.take 5)).inFlight = [1, 0, 0, 1] := by decide
+
+/-- the seeded scenario on the model: HaveAll, then a redundant Have while the metadata is unknown;
+    the metadata completes; the peer handles PeerMetadataComplete (error: it is dropped), leaves;
+    availability is back to zero -/
+example : (run (initMagnet { ps := 32768, len := 50000 } 8)
+    [.connect true 8 64, .peerMsg 0 .haveAll false, .peerMsg 0 (.haveMsg 1) false, .torEvent, .metaComplete,
+     .peerEvent 0 false, .exit 0, .torEvent, .torEvent]).avail = [0, 0] := by decide
 
 /-- the guards are satisfiable: a connect and a request of two fresh blocks -/
 example : Guarded (init { ps := 32768, len := 50000 } 8) [.connect true 8 64, .request 0 [0, 3] false] := by
